@@ -124,6 +124,9 @@ def gen_case(rng, cid, families=None, kinds=('mh', 'pt'), allow_saveload=True,
     # cases the sampler's parameter list, the list of proposals and each proposal's own parameter
     # list are in unrelated orders (values are paired by NAME everywhere in the protocol)
     orng = random.Random(c.seed ^ 0x0D0E)
+    # reset_after_swap: exchanged levels restart their adaptation (a third of the tempered cases)
+    if c.kind == 'pt' and orng.random() < 0.35:
+        c.reset_after_swap = True
     if orng.random() < 0.5:
         orng.shuffle(c.params)
         orng.shuffle(c.props)
